@@ -1306,10 +1306,10 @@ PROOF_FILES = ["C16/Model.v", "C16/Lists.v", "C16/Policies.v", "C16/Store.v", "C
                "Base/PyLib.v", "Gen/EvictionGen.v", "C16/GenTie.v", "C16/Props.v"]
 
 TRUSTED = [
-    "translator harness/translate/py2coq.py + declared types (py2coq_targets.py EvictionGen): LRUEviction and FIFOEviction are regenerated from "
-    "components/datastore/eviction_policies.py on every run and proved to act on the tracked keys as the model policies lru / fifo (C16/GenTie.v); "
+    "translator harness/translate/py2coq.py + declared types (py2coq_targets.py EvictionGen): LRUEviction, FIFOEviction and LFUEviction are regenerated from "
+    "components/datastore/eviction_policies.py on every run and proved to act on the tracked keys as the model policies lru / fifo / lfu (C16/GenTie.v); "
     "idioms trusted: cache keys are integers, an (Ordered)dict is an insertion-ordered association list (d[k] = None stores 0, move_to_end / "
-    "list.remove only under a membership guard, next(iter(d)) is the first key, del d[k] raises on a missing key); the other seven policies are hand-modelled",
+    "list.remove only under a membership guard, next(iter(d)) is the first key, del d[k] raises on a missing key); min(d.values()) raises on an empty dict, a loop over d.items() may modify d only when it leaves the loop at once); the other six policies are hand-modelled",
     "Coq 8.16.1 kernel (coqc, vm_compute for refutation witnesses and case evaluation); no native_compute",
     "axioms: none",
     "correspondence harness harness/props/c16.py (generators, hand-stepping driver entity, observers, in-Coq comparison ok_* of C16/Model.v)",
